@@ -22,6 +22,8 @@ params (all JSON-able):
   inject_seek: [p, o]              a seek(p, o) that the explorer may place at any choice point (budgets r / p)
                                    between assignment and the first delivery from p
   waiter_order: fifo | lifo         order in which blocked getone()/getmany() callers are woken (the library iterates a set)
+  expect_oor: {"0": n}              the committed offset when it lies outside the log (position() may report it until the
+                                   broker has answered OFFSET_OUT_OF_RANGE)
   expect_start: {"0": n | ["raise", name] | None}   where consumption must start when no seek intervenes
                                    (computed by the property module from the grid; None: log start)
 """
@@ -121,6 +123,7 @@ class ConsumerScenario:
         self.stop_error = None
         self.first_delivery = set()
         self.inject_fut = None
+        self.window_closed = False  # inject_seek: the reset has completed as far as the application can tell
         self._moved = set()
         self._cut_cache = {}
 
@@ -130,6 +133,8 @@ class ConsumerScenario:
     def rec(self, *a):
         self.h.append(a)
         self.world.record(*a)
+        if a[0] in ("raised", "pos"):
+            self.window_closed = True
 
     # ------------------------------------------------------------------------------------------------
     def setup(self, world):
@@ -255,7 +260,7 @@ class ConsumerScenario:
         if fut is None or fut.done():
             return []
         part = self.p["inject_seek"][0]
-        if part in self.first_delivery:
+        if part in self.first_delivery or self.window_closed:
             return []
         return [Alt("gate:inject-seek", "g", lambda: (not fut.done()) and fut.set_result(None))]
 
@@ -305,6 +310,7 @@ class ConsumerScenario:
                           f"program task failed: {t.exception()!r}")
         if tasks:
             await asyncio.wait(tasks, timeout=0.01)
+        self.window_closed = True
         if p.get("drain", True):
             await self.drain()
         if injector is not None and not injector.done():
@@ -416,8 +422,12 @@ class ConsumerScenario:
                     break
             else:
                 done_at = None
+            n = len(self.h)
             await self.do_call("d", k, ["getmany", {"t": p.get("drain_poll_ms", 100)}], timeout=2.0)
             k += 1
+            if any(e[0] == "raised" for e in self.h[n:]):
+                # an application does not spin on a failing poll
+                await asyncio.sleep(p.get("drain_poll_ms", 100) / 1000.0)
         self.drain_done = world.now()
 
     # ---- end-of-run oracles ----------------------------------------------------------------------------------
@@ -467,6 +477,8 @@ class Model:
         for part in self.truth:
             e = es.get(str(part))
             self.expect[part] = e if e is not None else self.truth[part]["log_start"]
+            # a committed offset outside the log: the consumer does start there, until the broker reports it out of range
+            self.oor[part] = (scn.p.get("expect_oor") or {}).get(str(part))
         self.quiet = False
 
     def fail(self, oracle, sig, msg):
@@ -625,7 +637,10 @@ class Model:
                 ok = True
                 self.raised[part].append(etype)
         if not ok:
-            self.fail("exception", {"what": "unexpected-exception", "type": etype, "call": name},
+            import re
+
+            inner = re.search(r"(\w+(?:Error|Exception))\(", msg)
+            self.fail("exception", {"what": "unexpected-exception", "type": etype, "detail": inner.group(1) if inner else ""},
                       f"{name} (task {task} call {idx}) raised {etype}: {msg}")
 
     # -- bounded liveness ----------------------------------------------------------------------------------------
@@ -650,8 +665,9 @@ class Model:
             start = self.start_of(part)
             if start is None:
                 if not self.raised[part]:
-                    self.fail("liveness", {"what": "expected-exception-not-raised", "expected": self.expect[part][1]},
-                              f"t-{part}: {self.expect[part][1]} was never raised to a polling task within {H}s")
+                    cause = self.stall_cause(part)
+                    self.fail("liveness", {"what": "expected-exception-not-raised", "expected": self.expect[part][1], "cause": cause},
+                              f"t-{part}: {self.expect[part][1]} was never raised to a polling task within {H}s; diagnosis: {cause}")
                 continue
             nxt = self.next_visible(part, start)
             if nxt is not None:
@@ -680,6 +696,9 @@ class Model:
         if len(lastf) == 3 and len({tuple(pd["fetch_offset"] for td in e["body"]["topics"] for pd in td["partitions"] if pd["partition"] == part)
                                     for e in lastf}) == 1:
             return "same-fetch-repeated"
+        of = [e for e in cl.arrivals if e["api"] == "OffsetFetch"]
+        if not fe and not lo and of and of[-1].get("fault"):
+            return f"committed-offset-lookup-not-retried-after-{of[-1]['fault'][0]}-{of[-1]['fault'][1]}"
         if not fe:
             return "never-fetched"
         return "other"
